@@ -84,6 +84,9 @@ func runCase(c *Case) (nontrivial bool, err error) {
 		}
 		lifecycle.ReleaseAll()
 	}()
+	var lineage []*casket.Instance // the instances of the current lineage, oldest first
+	var lineageGen []string        // their generation ids
+	var fresh []*int32             // flags of the Wait() calls made in mid-history (see below)
 	stuck := false               // the lineage has a non-graceful server, which casket never stops: Wait() cannot return
 	serving := map[string]bool{} // servers currently serving (a non-graceful one serves until the case ends)
 	continuously := false        // since the lineage began, some server of it has been serving at every moment
@@ -127,6 +130,7 @@ func runCase(c *Case) (nontrivial bool, err error) {
 				live, inst = h, ni
 				// a new lineage begins: watch Wait() on its first instance
 				first = ni
+				lineage, lineageGen, fresh = []*casket.Instance{ni}, []string{h.id}, nil
 				stuck = false
 				serving = map[string]bool{}
 				continuously = h.servers > 0
@@ -181,6 +185,7 @@ func runCase(c *Case) (nontrivial bool, err error) {
 					}
 				}
 				live, inst = h, ni
+				lineage, lineageGen = append(lineage, ni), append(lineageGen, h.id)
 			}
 		case "stop":
 			if live == nil {
@@ -261,9 +266,50 @@ func runCase(c *Case) (nontrivial bool, err error) {
 		if len(serving) == 0 {
 			continuously = false // every server has stopped at some point: Wait() may legitimately have returned
 			if !stuck && first != nil {
-				// let the waiter finish returning before the wait group is used again
-				for d := time.Now().Add(2 * time.Second); atomic.LoadInt32(waitReturned) == 0 && time.Now().Before(d); {
+				// let the waiters finish returning before the wait group is used again
+				pending := func() bool {
+					if atomic.LoadInt32(waitReturned) == 0 {
+						return true
+					}
+					for _, f := range fresh {
+						if atomic.LoadInt32(f) == 0 {
+							return true
+						}
+					}
+					return false
+				}
+				for d := time.Now().Add(2 * time.Second); pending() && time.Now().Before(d); {
 					time.Sleep(200 * time.Microsecond)
+				}
+				fresh = nil
+			}
+		} else if first != nil {
+			// Wait() called now, on any instance of the lineage, must block: servers of the live generation
+			// (or servers casket cannot stop) are serving.  A correct Wait never returns here, so the short
+			// pause cannot raise a false alarm; a wrong one returns at once.
+			now := map[int]*int32{}
+			for k, li := range lineage {
+				// only servers of this instance and of its successors count for it
+				own := false
+				for sv := range serving {
+					for _, g := range lineageGen[k:] {
+						if strings.HasPrefix(sv, g+".") {
+							own = true
+						}
+					}
+				}
+				if !own {
+					continue
+				}
+				f := new(int32)
+				now[k] = f
+				fresh = append(fresh, f)
+				go func(i *casket.Instance, flag *int32) { i.Wait(); atomic.StoreInt32(flag, 1) }(li, f)
+			}
+			time.Sleep(300 * time.Microsecond)
+			for k, f := range now {
+				if atomic.LoadInt32(f) == 1 {
+					return nontrivial, fmt.Errorf("%s: Wait() called on generation %d of the lineage %v returned although servers %v of it or its successors are serving", desc, k+1, lineageGen, serving)
 				}
 			}
 		}
@@ -346,6 +392,9 @@ type sigCase struct {
 	// them (whose shutdown callback is slow) is stopped from another goroutine while the shutdown callbacks run
 	Extra      int  `json:"extra,omitempty"`
 	StopDuring bool `json:"stop_during,omitempty"`
+	// StaleStop: after the reloads the application calls Stop() on the handle its initial Start returned
+	// (a deferred clean-up), although reloads have replaced that instance since
+	StaleStop bool `json:"stale_stop,omitempty"`
 }
 
 var seq int64
@@ -377,6 +426,9 @@ func runSig(c *sigCase) (bool, error) {
 		} else {
 			failedOnce = true
 		}
+	}
+	if c.StaleStop && liveGen != "g1" {
+		sc.Steps = append(sc.Steps, child.Step{Op: "stop-load", N: c.Extra})
 	}
 	if c.Extra > 0 && c.StopDuring {
 		sc.Steps = append(sc.Steps, child.Step{Op: "stop-first-later", N: 150})
@@ -462,6 +514,7 @@ func TestSignals(t *testing.T) {
 			c.Extra = rapid.IntRange(1, 3).Draw(t, "extra")
 			c.StopDuring = rapid.Bool().Draw(t, "stopduring")
 		}
+		c.StaleStop = len(c.Reloads) > 0 && rapid.IntRange(0, 2).Draw(t, "stale") == 0
 		nt, err := runSig(c)
 		vt.Record("signals", c, nt || c.Extra > 0, "signal:"+c.Signal, fmt.Sprintf("n=%d", c.N), fmt.Sprintf("instances=%d", c.Extra+1))
 		vt.Check(t, "signals", c, err)
